@@ -113,3 +113,11 @@ def pick_dir(xs: Seq[RecV], ps: Seq[Int], rev: Bool, n: Int) -> Seq[RecV]:
     if n <= 0:
         return []
     return pick_dir(xs, ps, rev, n - 1) + [xs[ps[(len(ps) - n) if rev else (n - 1)]]]
+
+
+@spec
+def rep_cells(c: Cell, n: Int) -> Seq[Cell]:
+    # [c] * n
+    if n <= 0:
+        return []
+    return rep_cells(c, n - 1) + [c]
